@@ -128,3 +128,11 @@ Fixpoint drun (waits : bool) (cap : nat) (q : queues) (ops : list dop) : list fr
 
 Definition concerns (sid : N) (op : dop) : bool :=
   match op with Deliver f => f_sid f =? sid | Take s => s =? sid end.
+
+(* ---- UDP frames inline on a stream (HTTP CONNECT udp, QUIC bi-stream): StreamFrameWriter / StreamFrameReader --------- *)
+(* the writer puts the encoded frames one after the other on the stream; a frame that cannot be encoded is an error *)
+Fixpoint encode_all (fs : list frame) : outcome bytes :=
+  match fs with
+  | [] => Ok []
+  | f :: rest => e <- encode_frame f ;; r <- encode_all rest ;; Ok (e ++ r)
+  end.
